@@ -250,7 +250,7 @@ def fix_edges(rng, fields, sep_c):
     return f
 
 
-def gen_doc(rng, big=False):
+def gen_doc(rng, big=False, n_rows_forced=None):
     sep_c = rng.choice(["\t"] * 6 + [",", ";", " "])
     sep_p = rng.choice([":"] * 5 + [";", "|", "::", "", ": "])
     if sep_c in sep_p:
@@ -284,6 +284,8 @@ def gen_doc(rng, big=False):
         dd = rand_pad(rng, pad_p) + "DefaultDirection" + rng.choice(["", "", "s", " x"]) + tail + rand_pad(rng, pad_p)
         if rng.random() < 0.15:
             n_rows = 0
+    if n_rows_forced is not None:
+        n_rows = n_rows_forced
     rows = []
     kmax = rng.choice([1, 2, 3, 5]) if not big else 12
     for _ in range(n_rows):
@@ -311,6 +313,14 @@ def gen_doc(rng, big=False):
     doc["hdr_default"] = sep_c == "\t" and rng.random() < 0.5
     doc["keep_cr"] = rng.random() < 0.25
     return doc
+
+
+# long documents whose number of lines sits at and around round numbers (block / buffer sizes a writer might use)
+LONG_SIZES = [255, 256, 257, 999, 1000, 1001, 1999, 2000, 4095, 4096, 4097, 9999]
+
+
+def gen_long_docs(rng, sizes=LONG_SIZES):
+    return [gen_doc(rng, big=False, n_rows_forced=n) for n in sizes]
 
 
 TERMS = ["\n", "\n", "\r\n", "\r\n", "\r"]
@@ -956,6 +966,11 @@ def main(chk, args):
         docs += [gen_doc(rng, big=(i % 10 == 0)) for i in range(1500 if quick else 60000)]
         for i in range(0, len(docs), 2000):
             eval_docs(chk, docs[i:i + 2000], cli=(i < 4000), tmpdir=tmpdir, files=(3 if quick else 1) if i < 20000 else 0)
+        longs = gen_long_docs(rng) if quick else gen_long_docs(rng) + gen_long_docs(rng, [511, 512, 513, 1023, 1024, 1025,
+                                                                                       2047, 2048, 2049, 8191, 8192,
+                                                                                       10000, 10001, 16383, 16384])
+        eval_docs(chk, longs, cli=True, tmpdir=tmpdir, files=1)
+        chk.count("long_documents", len(longs))
         raws = [gen_raw(rng) for _ in range(6000 if quick else 200000)]
         for i in range(0, len(raws), 20000):
             eval_raw(chk, raws[i:i + 20000])
